@@ -156,6 +156,9 @@ func runC14(c *Ctx) {
 	if c.Arg == "C15" {
 		c14Prop = "C15"
 	}
+	if c.Arg == "C17" {
+		c14Prop = "C17" // only the set-after-sweep cases, with metrics on: the conservation laws across expiry of cost-0 entries
+	}
 	r.Rule = "(A) directed: position of the racing call in {before the grab, after the grab, before the key's check, between check and removal} x racing call in {rewrite later ttl, no ttl, shorter ttl, Del, Del+re-insert} x the key is the 1st/2nd/last visited of its bucket; (B) late application: a short-ttl insert waits in the write buffer until its bucket lies behind the sweep frontier; (C) stress with delays at the sweep points. distinct by (kind, position, call, nth, outcome class); non-trivial when at least one entry expired"
 	ristretto.VerifSetBucketSeconds(1)
 	rounds := c.N(2, 16)
@@ -166,7 +169,7 @@ func runC14(c *Ctx) {
 		if c14Prop == "C06" {
 			calls = []string{"later", "none", "del-reinsert"}
 		}
-		if c14Prop == "C15" {
+		if c14Prop == "C15" || c14Prop == "C17" {
 			positions = nil
 		}
 		for _, p := range positions {
@@ -191,7 +194,7 @@ func runC14(c *Ctx) {
 		for i := 0; i < 3 && (c14Prop == "C14" || c14Prop == "C15"); i++ {
 			cases = append(cases, c14Case{Kind: "after-clear", Nth: i})
 		}
-		for i := 0; i < 2 && (c14Prop == "C14" || c14Prop == "C06"); i++ {
+		for i := 0; i < 2 && (c14Prop == "C14" || c14Prop == "C06" || c14Prop == "C17"); i++ {
 			cases = append(cases, c14Case{Kind: "set-after-sweep", Nth: i})
 		}
 		for i := 0; i < 3 && c14Prop == "C14"; i++ {
@@ -246,7 +249,8 @@ func (e *c14Env) tr(f string, a ...any) {
 }
 
 func (e *c14Env) fail(sig, d string) {
-	if c14Prop == "C06" && !strings.HasPrefix(sig, "rewritten-entry-removed") && sig != "entry-without-ttl-removed" && sig != "set-after-sweep-lost" {
+	if (c14Prop == "C06" && !strings.HasPrefix(sig, "rewritten-entry-removed") && sig != "entry-without-ttl-removed" && sig != "set-after-sweep-lost") ||
+		(c14Prop == "C17" && !strings.HasPrefix(sig, "keys-added-minus-evicted") && !strings.HasPrefix(sig, "cost-added-minus-evicted")) {
 		e.c.R.Obs("findings_owned_by_other_property["+sig+"]", 1)
 		return
 	}
@@ -263,6 +267,7 @@ func newC14Env(c *Ctx, cs c14Case, nkeys int, setbuf int) *c14Env {
 	if strings.HasPrefix(cs.Call, "refused-") {
 		cfg.ShouldUpdate = "parity" // ShouldUpdate refuses values with an odd sequence number
 	}
+	cfg.Metrics = c14Prop == "C17"
 	l, err := lab.NewLab(cfg)
 	if err != nil {
 		c.R.Inconc(1)
@@ -1207,6 +1212,18 @@ func c14SetAfterSweep(c *Ctx, cs c14Case) {
 	snap := l.C.Snapshot()
 	l.C.Resume()
 	r.Obs("set_after_sweep_cases", 1)
+	if mt := l.C.Metrics(); mt != nil && c14Prop == "C17" {
+		rc := l.C.RemainingCost()
+		if d := int64(mt.KeysAdded() - mt.KeysEvicted()); d != int64(len(snap.Entries)) {
+			e.fail("keys-added-minus-evicted/after-expiry", fmt.Sprintf("entries of cost %v expired and were swept: KeysAdded-KeysEvicted=%d-%d=%d but %d keys are resident in the map", costs, mt.KeysAdded(), mt.KeysEvicted(), d, len(snap.Entries)))
+			return
+		}
+		if d := int64(mt.CostAdded() - mt.CostEvicted()); d != snap.MaxCost-rc {
+			e.fail("cost-added-minus-evicted/after-expiry", fmt.Sprintf("entries of cost %v expired and were swept: CostAdded-CostEvicted=%d but MaxCost-RemainingCost()=%d", costs, d, snap.MaxCost-rc))
+			return
+		}
+		r.Obs("metric_laws_checked_after_expiry", 1)
+	}
 	for k, v := range vals {
 		_, accounted := snap.KeyCosts[l.Hashes[k][0]]
 		stored := false
